@@ -178,12 +178,14 @@ CLAIMED = {
         "open never panics or runs out of fuel (end-record scans are structural over the input, directory and extra-field "
         "loops are fuelled by the input length with a proved progress measure); opening any entry by index with or without "
         "password never panics (the unchecked offset sum is unreachable for inputs < 2^63 bytes); reading it under any "
-        "buffer schedule never panics (AES finalisation invariant); pre-allocation is bounded by the input length.  "
+        "buffer schedule never panics (AES finalisation invariant); pre-allocation is bounded by the input length; the "
+        "streaming reader walked to the central directory, the visitor's metadata phase and ZipWriter::new_append never "
+        "panic or run out of fuel either (every step advances >= 30 / 46 bytes inside the input).  "
         "Correspondence and measurement: 57k hostile inputs (every truncation, byte substitutions in all structural "
         "regions, multi-site damage, random bytes, single and pairwise structure-aware liars at 0/2^16/2^32/2^63/2^64) "
         "with the model predicting each open/by_index outcome, and the harness running every reader entry point "
         "(seekable, raw, by name, streaming, visitor, open-for-append) under a counting allocator and a clock.",
-   note="Trusted: Coq kernel, extraction+driver, harness (allocator, clock), genzip.py. Stream/visitor/append totality is exercised by the harness, not yet a theorem; heap and time are measured, not proved; panics inside codecs are outside the model.",
+   note="Trusted: Coq kernel, extraction+driver, harness (allocator, clock), genzip.py. Heap and time are measured, not proved; panics inside codecs are outside the model.",
    technique="Coq proof (no-panic by case analysis over the outcome monad, fuel sufficiency by progress measure) + hostile-input correspondence and resource measurement",
    design="8 (C05)"),
  "C06": dict(
